@@ -335,6 +335,12 @@ def build(template_path, repo, variant="strict", inline=None):
         log = res.rewrites
         toks = list(item.toks)
         toks = _apply_rules(toks, opts["rules"], log, where, item.kind)
+        if item.kind == "fn" and inline:
+            # R20 first: the unit's cuts and subs then see the helper's text as part of the function, as they did before the
+            # helper was split off
+            for hname, helper in inline.items():
+                if hname != item.name:
+                    toks = R.inline_helper(toks, helper, log, where)
         for (tag, pat, optional) in opts.get("cuts", []):
             try:
                 toks = R.cut_statement(toks, pat, tag, log, where)
@@ -347,10 +353,6 @@ def build(template_path, repo, variant="strict", inline=None):
             except LostAnchor as e:
                 res.lost.append(str(e))
 
-        if item.kind == "fn" and inline:
-            for hname, helper in inline.items():
-                if hname != item.name:
-                    toks = R.inline_helper(toks, helper, log, where)
         for kk in opts.get("r13", []):
             try:
                 toks = R.r13_index_loop(toks, kk, log, where)
